@@ -170,8 +170,12 @@ def run(p, led, tier):
             it.stubs["SuppressionRule.can_suppress"] = lambda interp, args, kwargs: Unknown("can_suppress")
             tr = it.instantiate(treg, [], dict(rules=[rule], stability_threshold=Unknown("stability_threshold")))
             rec = it.instantiate(trec, [], dict(agent_id="a1"))
-            rec.fields["clean_inspections"] = Unknown("clean_inspections")
-            resp = Obj(resp_cls, dict(agent_id="a1", threat_level=member(it, TL, t), action=member(it, RA, a), signal1=Unknown("s1"), signal2=Unknown("s2"), violations=[], is_anergic=False))
+            # any tolerance record: every field other than the agent's id is arbitrary (counters, timestamps, registered
+            # patterns …), and the response carries arbitrary violations
+            for fld in list(rec.fields):
+                if fld != "agent_id":
+                    rec.fields[fld] = Unknown(fld)
+            resp = Obj(resp_cls, dict(agent_id="a1", threat_level=member(it, TL, t), action=member(it, RA, a), signal1=Unknown("s1"), signal2=Unknown("s2"), violations=Unknown("violations"), is_anergic=False))
             try:
                 r = it.call_fi(ev, [tr, resp, rec], {})
             except PyRaise as e:
@@ -228,7 +232,7 @@ def run(p, led, tier):
     chkm = p.find_method(prof, "check")
     if train is None:
         raise AnchorError("Thymus.train not found")
-    for with_canary in (False, True):
+    for with_canary, hashes in [(c_, h_) for c_ in (False, True) for h_ in (("vh", "sh"), ("", ""), (None, None))]:
         def go_t(o):
             it = LinInterp(p, o, real=True)
 
@@ -254,7 +258,8 @@ def run(p, led, tier):
             for k in ("error_rate", "canary"):
                 it.assume(Lin({}, 1).add(S[k], -1))
             pep = Obj(pept, dict(agent_id="a1", timestamp=Unknown("ts"), output_length_mean=S["len_mean"], output_length_std=S["len_std"], response_time_mean=S["rt_mean"],
-                                 response_time_std=S["rt_std"], vocabulary_hash="vh", structure_hash="sh", confidence_mean=S["conf_mean"], confidence_std=S["conf_std"],
+                                 response_time_std=S["rt_std"], vocabulary_hash=(Unknown("vocabulary_hash") if hashes[0] is None else hashes[0]),
+                                 structure_hash=(Unknown("structure_hash") if hashes[1] is None else hashes[1]), confidence_mean=S["conf_mean"], confidence_std=S["conf_std"],
                                  error_rate=S["error_rate"], error_types=(), canary_accuracy=(S["canary"] if with_canary else None)))
             T = it.instantiate(thy, [], {})
             n = T.fields.get("min_training_samples", 10)
@@ -272,7 +277,7 @@ def run(p, led, tier):
             paths = [r for _, r in explore(go_t, max_paths=5000)]
         except Imprecise as e:
             raise AnchorError(f"Thymus.train / BaselineProfile.check could not be interpreted: {e}")
-        key = f"Thymus.train → BaselineProfile.check ▸ same fingerprint, canary {'measured' if with_canary else 'absent'}"
+        key = f"Thymus.train → BaselineProfile.check ▸ same fingerprint, canary {'measured' if with_canary else 'absent'}, hashes {'arbitrary' if hashes[0] is None else ('empty' if hashes[0] == '' else 'ordinary')}"
         pos = [r for r in paths if r.get("result") == "POSITIVE"]
         bad = [r for r in pos if r["n"] > 0]
         raised = [r for r in paths if "raised" in r]
